@@ -280,9 +280,28 @@ let cmd_bundle (dirname : string) =
       | Some l -> Printf.printf "CONSUME %s\n" (hexlist l)));
   Printf.printf "LOCAL %s\n" (hexlist (load_local es))
 
+(* walk <root-hex>: the tree on stdin, pre-order: "F <name-hex>" | "D <name-hex> <readable01> <nkids>" *)
+let cmd_walk (root : string) =
+  let rec rd () : fsnode =
+    match read_line_opt () with
+    | None -> failwith "walk: eof"
+    | Some l ->
+      (match words l with
+       | ["F"; n] -> FFile (bytes_of_hex n)
+       | ["D"; n; r; k] ->
+         let kids = ref [] in
+         for _ = 1 to int_of_string k do kids := rd () :: !kids done;
+         FDir (bytes_of_hex n, r = "1", List.rev !kids)
+       | _ -> failwith ("walk: bad line " ^ l)) in
+  let t = rd () in
+  match get_files (bytes_of_hex root) t with
+  | None -> print_string "ERROR\n"
+  | Some l -> Printf.printf "FILES %s\n" (hexlist l)
+
 let () =
   match Array.to_list Sys.argv with
   | [_; "build"] -> cmd_build ()
+  | [_; "walk"; r] -> cmd_walk r
   | [_; "rules"] -> cmd_rules ()
   | [_; "ci"; g] -> cmd_ci g
   | [_; "bundle"; d] -> cmd_bundle d
